@@ -950,7 +950,6 @@ func ruleMultiKeySpecs(w *core.World, r *core.Report) {
 	r.Check(len(bad) == 0 && n >= 10, "keyspec/multi-key-rows", pos, "rows of commands that address several keys must equal the published key specification (first, last, step); a row naming fewer keys lets the remaining keys bypass the key/slot filters and the single-slot check: %v (rows compared: %d)", bad, n)
 }
 
-
 // argIsParam: v is the parameter itself, or the parameter of a helper that
 // received it (a helper extracted from the function passes its argument on).
 func argIsParam(v ssa.Value, par *ssa.Parameter) bool {
